@@ -188,7 +188,8 @@ func readHeader(f *os.File) (*header, error) {
 }
 
 // Extract the logical size of a v2 cas blob from rc, and return that
-// size along with an equivalent io.ReadCloser to rc.
+// size along with an equivalent io.ReadCloser to rc. If there is an
+// error rc will be closed, the caller does not need to do so.
 func ExtractLogicalSize(rc io.ReadCloser) (io.ReadCloser, int64, error) {
 
 	// Read the first part of the header: magic number (4 bytes),
@@ -198,9 +199,11 @@ func ExtractLogicalSize(rc io.ReadCloser) (io.ReadCloser, int64, error) {
 
 	n, err := io.ReadFull(rc, earlyHeader)
 	if err != nil {
+		_ = rc.Close()
 		return nil, -1, err
 	}
 	if n != 16 {
+		_ = rc.Close()
 		return nil, -1, fmt.Errorf("tried to read 16 header bytes, only read %d", n)
 	}
 
@@ -208,9 +211,11 @@ func ExtractLogicalSize(rc io.ReadCloser) (io.ReadCloser, int64, error) {
 	br := bytes.NewReader(earlyHeader[8:])
 	err = binary.Read(br, binary.LittleEndian, &uncompressedSize)
 	if err != nil {
+		_ = rc.Close()
 		return nil, -1, err
 	}
 	if uncompressedSize <= 0 {
+		_ = rc.Close()
 		return nil, -1, fmt.Errorf("expected blob to have positive size, found %d",
 			uncompressedSize)
 	}
